@@ -4,8 +4,6 @@ package c01
 
 import (
 	"fmt"
-
-	"verif/engine"
 )
 
 // Oracle-sensitivity self-test (rule S6): each mutant is the reference
@@ -35,9 +33,7 @@ func selftest(tier string) (killed, total int, notes []string) {
 			}
 		})
 	}
-	if tier == engine.Thorough || true {
-		// the composed programs of the tier's first plan are a superset of these; D <= 2 is enough to kill all
-	}
+	_ = tier // the programs of every tier include all programs with D <= 2, which is enough to distinguish all mutants
 	for _, m := range refMutants {
 		total++
 		found := ""
